@@ -24,12 +24,12 @@ CHECKS = {
    technique="TLC-enumerated transitions replayed into the code + TLA+ trace validation of the recordings"),
  "C08": dict(
    cat="model_checking", design="DESIGN.md section 6 C08",
-   text="Trace validation of mixed histories over KV, lists, sets and sorted sets (multi-operation transactions, operations that are no-ops at commit, rollbacks, rotations with 192-576 byte segments) with a real Close/Open every few transactions and shadow reopens (copy of the directory opened separately) in between; after each, a full observation of every bucket and structure is recorded and TLC accepts it only if it equals Replay(log) of Nuts.tla, which by the invariant ReopenInv equals what the process served before Close. KV-only histories run in both RAM index modes. ReopenInv is model-checked on NutsMC (kv/list/set/zset universes), and the recorded deviations (SMove unlogged, duplicate tx ids) are shown to be counterexamples of it.",
+   text="Trace validation of mixed histories over KV, lists, sets and sorted sets (multi-operation transactions, operations that are no-ops at commit, rollbacks, rotations with 192-576 byte segments) with a real Close/Open every few transactions and shadow reopens (copy of the directory opened separately) in between; after each, a full observation of every bucket and structure is recorded and TLC accepts it only if it equals Replay(log) of Nuts.tla, which by the invariant ReopenInv equals what the process served before Close. In addition the same seeded read battery (every read API on every bucket, list, set and sorted-set key of the universe) runs right before every real Close and right after the following Open; each event after Open carries the digest of its twin before Close and TLC requires the two to be equal, result for result and error for error - unless process and log already disagreed at Close, which only a recorded deviation can cause. KV-only histories run in both RAM index modes. ReopenInv is model-checked on NutsMC (kv/list/set/zset universes), and the recorded deviations (SMove unlogged, duplicate tx ids) are shown to be counterexamples of it.",
    note="Trusts TLC and the recording wrapper. Sparse mode reopen is judged under C02. Known findings of C06/C07/C13 that also surface here are reported as KNOWN-FINDING lines.",
    technique="TLA+ trace validation with TLC (code -> spec, invariant ReopenInv) + bounded model checking of NutsMC"),
  "C12": dict(
    cat="model_checking", design="DESIGN.md section 6 C12",
-   text="Trace validation of histories in which ~45% of the write transactions end without a successful commit: Rollback, an oversized entry at a random position, an injected write error (with or without a partial write) or sync error at a random file mutation of the commit (verifFS hook), and read-only transactions that call mutating APIs; every method is also called on finished transactions. After each such transaction reads, full observations and shadow reopens are recorded, and TLC accepts them only if they equal the unchanged model state (actions Rollback/CommitFail/MutateRO/Finished of Nuts.tla; a failure after the last record was completely written is admitted as all-or-nothing). The action property NoEffect is model-checked on NutsMC and the SMove deviation is shown to violate it; Commit.tla's FaultAtomic (process and reopen serve exactly the returned transactions after any write / sync / rotation fault) is model-checked, with the pre-fix IndexDuringWrite and the known finding F-C12-4 (SyncFaultOnMark) as switches that must violate it; the recorded file mutations of every commit, including the injected faults, are validated against Commit.tla by CommitTrace.tla. One fate of a failing transaction is the fault sweep: the same transaction is re-committed with the j-th file mutation failing for j = 0, 1, ... until it goes through.",
+   text="Trace validation of histories in which ~45% of the write transactions end without a successful commit: Rollback, an oversized entry at a random position, an injected write error (with or without a partial write) or sync error at a random file mutation of the commit (verifFS hook), a transaction function that returns an error to DB.Update, and read-only transactions that call mutating APIs; every method is also called on finished transactions. After each such transaction reads, full observations and shadow reopens are recorded, and TLC accepts them only if they equal the unchanged model state (actions Rollback/CommitFail/MutateRO/Finished of Nuts.tla; a failure after the last record was completely written is admitted as all-or-nothing). The action property NoEffect is model-checked on NutsMC and the SMove deviation is shown to violate it; Commit.tla's FaultAtomic (process and reopen serve exactly the returned transactions after any write / sync / rotation fault) is model-checked, with the pre-fix IndexDuringWrite and the known finding F-C12-4 (SyncFaultOnMark) as switches that must violate it; the recorded file mutations of every commit, including the injected faults, are validated against Commit.tla by CommitTrace.tla. One fate of a failing transaction is the fault sweep: the same transaction is re-committed with the j-th file mutation failing for j = 0, 1, ... until it goes through.",
    note="Trusts TLC, the recording wrapper and the fault injector (harness/internal/hx/fsobs.go, which checks at the end of each history that its image of the directory equals the real one).",
    technique="TLA+ trace validation with TLC (code -> spec) with fault injection through build-tag hooks + bounded model checking of NutsMC"),
  "C13": dict(
@@ -45,11 +45,11 @@ CHECKS = {
  "C15": dict(
    cat="model_checking", design="DESIGN.md section 6 C15",
    text="Trace validation of histories with Merge at random quiescent points (also twice in a row, with fewer than two files, and with an I/O fault injected at a random file mutation inside Merge): each merge event carries the full observation of the running process and of a reopened copy taken right after the call, and TLC accepts it only if both equal the unchanged model state (mem and Replay(log)); the histories continue with writes, reads, shadow and real reopens, so writes after Merge are checked for durability. KV histories (TTL, deletes, failed transactions) run in both RAM modes and are judged to the end; set/sorted-set histories without SMove likewise; on histories with list records the pinned tree deviates (known finding F-C15-1) and the remainder of that history is not judged.",
-   note="Trusts TLC and the recording wrapper. MergePreserves is model-checked on NutsMC only at API grain (Merge is a stuttering step of the specification).",
+   note="Trusts TLC and the recording wrapper. Merge.tla - data files with committed and left-over records, the index, Merge as scan / two-step rewrite / remove per file - is model-checked for MergePreserves and WriteDurable (switches Lists = F-C15-1, RewriteUncommitted and ActiveRemoved = two repaired defects must each produce a counterexample); it has no trace binding of its own, the code side is decided by the merge events of NutsTrace.",
    technique="TLA+ trace validation with TLC (code -> spec) with fault injection + bounded model checking of NutsMC"),
  "C10": dict(
    cat="model_checking", design="DESIGN.md section 6 C10",
-   text="Crash images validated by TLC: a workload (multi-record transactions spanning rotations, rollbacks, an oversized-entry failure followed in the same millisecond by a committing transaction, reopen; all structures in HintKeyValAndRAMIdxMode, KV in both RAM modes; FileIO and MMap; SyncEnable on and off) runs with the verifFS hook recording every file mutation; the directory is then rebuilt for every mutation point and, for each write, with the write torn at record-field boundaries (quick: 5 boundaries, thorough: every header field, bucket, key, value-1); the real Open runs on each image in a child process and the recorded observation is a 'crash' event placed before the call it interrupted. TLC (NutsTrace!TrCrash) accepts it only if Open succeeded and served Replay(log) of the transactions that had returned, or that plus the in-flight transaction in full. The protocol itself is specified in Commit.tla (one action per file mutation of Tx.Commit, rotation, I/O faults, Crash, PowerLoss, Recover) and model-checked (CrashAtomic, RecoverTotal, TxIdUnique; the pre-fix behaviours DupIds and TornTailAborts are switches that must produce counterexamples); CommitTrace.tla validates the hook-recorded stream of data-file mutations of ordinary histories as behaviours of Commit.tla (record order and offsets, commit mark on the last record only, Sync after every record under SyncEnable, pairwise different stored tx ids).",
+   text="Crash images validated by TLC: a workload (multi-record transactions spanning rotations, rollbacks, an oversized-entry failure followed in the same millisecond by a committing transaction, reopen; all structures in HintKeyValAndRAMIdxMode, KV in both RAM modes; FileIO and MMap; SyncEnable on and off) runs with the verifFS hook recording every file mutation; the directory is then rebuilt for every mutation point and, for each write, with the write torn at record-field boundaries (quick: 5 boundaries, thorough: every header field, bucket, key, value-1); the real Open runs on each image in a child process and the recorded observation is a 'crash' event placed before the call it interrupted. TLC (NutsTrace!TrCrash) accepts it only if Open succeeded and served Replay(log) of the transactions that had returned, or that plus the in-flight transaction in full. In the `crashcont` families the history continues on the crashed directory: the real Open recovers it (TrCrashOpen), more transactions are committed - one of them does not fit into the active segment, so whatever the crash left at the tail is sealed into a file that is no longer the last - and the database is reopened again. The protocol itself is specified in Commit.tla (one action per file mutation of Tx.Commit, rotation, I/O faults, Crash, PowerLoss, Recover) and model-checked (CrashAtomic, RecoverTotal, TxIdUnique; the pre-fix behaviours DupIds and TornTailAborts are switches that must produce counterexamples); CommitTrace.tla validates the hook-recorded stream of data-file mutations of ordinary histories as behaviours of Commit.tla (record order and offsets, commit mark on the last record only, Sync after every record under SyncEnable, pairwise different stored tx ids).",
    note="Trusts TLC, the recording wrapper and the image builder (the observer's final image is compared with the real directory after every workload; an unhooked mutation site is an infrastructure error). A process crash keeps every completed write; sparse mode images are judged under C02.",
    technique="TLA+ trace validation with TLC of crash images built from hook-recorded file mutations"),
  "C11": dict(
@@ -59,7 +59,7 @@ CHECKS = {
    technique="TLA+ trace validation with TLC of power-loss images built from hook-recorded file mutations"),
  "C16": dict(
    cat="model_checking", design="DESIGN.md section 6 C16",
-   text="As C10 restricted to the file mutations inside Merge (creation of rewrite files, rewritten records, removals, torn writes): for every such point of every generated pre-merge history the directory is rebuilt, the real Open runs on it, and TLC accepts only success serving exactly Replay(log) - the contents before Merge. KV histories (both RAM modes, FileIO/MMap) are judged strictly; with list or sorted-set records the pinned tree deviates (known finding F-C16-1: operation records are replayed twice or in a different order).",
+   text="As C10 restricted to the file mutations inside Merge (creation of rewrite files, rewritten records, removals, torn writes): for every such point of every generated pre-merge history the directory is rebuilt, the real Open runs on it (one workload has more than ten data files, so that file ids of different lengths coexist), and TLC accepts only success serving exactly Replay(log) - the contents before Merge. Merge.tla (data files, index, scan / two-step rewrite / remove per file, Crash anywhere) is model-checked for MergeCrashSafe; the switches Lists (= the known finding) and DelayedRewrite must violate it. KV histories (both RAM modes, FileIO/MMap) are judged strictly; with list or sorted-set records the pinned tree deviates (known finding F-C16-1: operation records are replayed twice or in a different order).",
    note="Trusts TLC, the recording wrapper and the image builder.",
    technique="TLA+ trace validation with TLC of crash images built from hook-recorded file mutations inside Merge"),
  "C04": dict(
@@ -92,10 +92,30 @@ CHECKS = {
    text="Trace validation of single-bucket Put/PutWithTimestamp/Delete histories in HintBPTSparseIdxMode (segments of 128-512 bytes so that most keys live in sealed segments reached through the on-disk B+ tree and root-index files; FileIO and MMap; Close/Open every ~12 transactions; a 41-key universe with paged scans in the `page` family): after every transaction Get of the key universe, GetAll, RangeScans with bounds straddling stored keys, PrefixScans and PrefixSearchScans are recorded, plus full observations after every reopen, and TLC accepts them only if they equal the ordered-map-with-TTL model (Nuts.tla/KVSpec.tla), exactly as for the RAM modes in C01. (The three scan defects the first version of this check recorded as a known finding - overlap predicate, ScanNoLimit never reading sealed segments, per-segment paging - are repaired; see known_findings.json, fixed F-C02-1.)",
    note="Single-bucket histories only, as the statement says. Multi-bucket sparse histories, failed commits in sparse mode and sparse crash images showed further defects in probes (DESIGN.md 11.3) and are outside this check. Trusts TLC and the recording wrapper.",
    technique="TLA+ trace validation with TLC (code -> spec) + bounded model checking of Nuts.tla"),
+ "C14": dict(
+   cat="model_checking", design="DESIGN.md section 6 C14",
+   text="(1) Lock.tla/LockCore.tla - goroutines, one writer-preferring RWMutex per database, two-step transactions, a Merge process, an Eraser-style lockset monitor - is model-checked (2 databases, 2 writers + 2 readers x 2-3 transactions + merger; 1 database with a Backup reader): Mutex, SnapshotStable, LockSet, NoLostUpdate, termination; the two repaired races (package-level queue, in-place sort of the shared root-index slice) are shown to be LockSet counterexamples. (2) Code -> spec: 4-16 goroutines run mixed View/Update transactions on 1-3 databases in every index mode with yields injected at the hook gates, race-instrumented. The lock hook (called under db.mu) counts writer acquisitions, which places every transaction in a serial order per database; that order is written out and TLC validates it as a sequential history of Nuts.tla: every read of a read-only transaction is taken twice and both must equal the same snapshot, every value is the last committed one, and end/begin ticks must respect real time. (3) The raw stream of lock and shared-access events is validated by LockTrace.tla against the RWMutex guards and the lockset monitor; race-detector reports are appended to that stream as events no action admits. A run that does not finish within the watchdog period is recorded as a deadlock event.",
+   note="Exhaustive interleavings only in the model; on the code the schedules are those the Go scheduler produces under injected yields. Trusts TLC, the hooks (verifLock is emitted while the lock is held) and the recording wrapper. Lists/sets/sorted sets are not part of the concurrent histories.",
+   technique="bounded model checking of Lock.tla + TLA+ trace validation of linearised concurrent histories (NutsTrace) and of the lock/access event stream (LockTrace), race detector as an event source"),
+ "C17": dict(
+   cat="model_checking", design="DESIGN.md section 6 C17",
+   text="As C14 with a goroutine that calls Merge in a loop next to 3-8 reading and writing goroutines (both RAM index modes, race-instrumented), plus a gate-forced schedule (verifGate) in which an update commits between Merge's scan of a segment and its rewrite. TLC validates the linearised results and the final/reopened observation against the merge-free serial history, and the lock/access stream plus race reports against LockCore. Lock.tla is model-checked with Merge as one write transaction (holds) and code-shaped (switch MergeUnlocked: TLC exhibits both the lockset violation and the lost update). On the pinned tree both happen: they are the known findings F-C17-1 and F-C17-2; any other rejection is a VIOLATION.",
+   note="Because Merge is unsynchronised on the pinned tree, a history is judged only up to its first read that the merge race changed; races whose stacks do not involve Merge are not excused.",
+   technique="bounded model checking of Lock.tla + TLA+ trace validation of linearised concurrent histories and of the lock/access event stream, gate-forced schedule, race detector as an event source"),
+ "C18": dict(
+   cat="model_checking", design="DESIGN.md section 6 C18",
+   text="A goroutine calls Backup(dir) in a loop while 3-8 goroutines write and read (both RAM index modes and sparse mode, FileIO and MMap, 1-2 databases, race-instrumented). A gate hook inside Backup's read transaction records how many writers had acquired the lock when the copy started; the copy is opened with the same options and fully observed; the backup event is placed at that point of the linearised history and TLC (NutsTrace!TrCopyObs) accepts it iff Open succeeded and the observation equals Replay(log) there - the state committed when the backup's read transaction started. Quiescent backups are taken in the `bigval` family (32-64 KiB segments, block-sized values made of zero and 0xFF runs) and judged the same way. Lock.tla (Backup as a two-step reader, SnapshotStable) is model-checked.",
+   note="Trusts TLC, the hooks and the recording wrapper. Backups taken while Merge runs are not generated (Merge is unsynchronised, C17).",
+   technique="TLA+ trace validation of linearised concurrent histories with Backup events + bounded model checking of Lock.tla"),
+ "C21": dict(
+   cat="model_checking", design="DESIGN.md section 6 C21",
+   text="Specification -> code, exhaustive over the enumerated domain: Codec.tla enumerates record templates (data entries: every combination of bucket/key/value size in {0,1,7} plus flag, status, structure code, timestamp, TTL and tx id varied over boundary values one - thorough: two - at a time; sparse root-index records; bucket metadata) and, for each, the unmutated record, every single-bit flip of its stored bytes and every truncation (22 255 reads quick). The replayer builds each record with the library's encoder, stores it through the library's writer (DataFile with FileIO and MMap, BPTreeRootIdx.Persistence), alters the stored bytes, reads it back through DataFile.ReadAt / ReadBPTreeRootIdxAt / ReadBucketMeta and records the fields written and the fields read. TLC (Codec!Admitted) accepts: unmutated -> a record with exactly the written fields; mutated -> an error, 'absent', or a record with exactly the written fields.",
+   note="The family's weak spot (DESIGN.md): TLA+ contributes the complete enumeration and the acceptance rule, not the byte layout or CRC arithmetic. The quick tier skips flips in the two high-order bytes of size fields (each makes the reader allocate up to 4 GB); the thorough tier includes them. Multi-bit corruption is not enumerated.",
+   technique="TLC-enumerated (template, mutation) pairs (Codec.tla) replayed into the code + TLA+ trace validation of written vs. read fields"),
  "C01": dict(
    cat="model_checking", design="DESIGN.md section 6 C01",
-   text="Trace validation: seeded random KV histories (multi-bucket, TTL on both sides of expiry, segments of 128-512 bytes so nearly every transaction rotates, reopen) are executed on the real library in HintKeyValAndRAMIdxMode and HintKeyAndRAMIdxMode x FileIO and MMap, every call is recorded, and TLC accepts the trace only if every Get/GetAll/RangeScan/PrefixScan/PrefixSearchScan result equals the KVSpec ordered-map-with-TTL result on the specification state (Nuts.tla). The API-grain design is model-checked exhaustively for a small universe (NutsMC_kv.cfg).",
-   note="Trusts TLC, the Json module, and the recording wrapper (harness/internal/hx). Bounded universe: 13 keys, 3 buckets, printable-ASCII values. Expiry instants are kept away from the wall clock; the regular-expression predicate is computed by Go's regexp in the driver and passed as a match set.",
+   text="Trace validation: seeded random KV histories (multi-bucket, TTL on both sides of expiry, segments of 128-512 bytes so nearly every transaction rotates, reopen) are executed on the real library in HintKeyValAndRAMIdxMode and HintKeyAndRAMIdxMode x FileIO and MMap, every call is recorded, and TLC accepts the trace only if every Get/GetAll/RangeScan/PrefixScan/PrefixSearchScan result equals the KVSpec ordered-map-with-TTL result on the specification state (Nuts.tla). Further families: `ttl` (keys expiring 1, 2 and 3 seconds from now, read a little after the start of every following second, so that the read in the very second in which now = timestamp + TTL is judged), `bigval` (32-64 KiB segments, values of 0..12 288 bytes made of zero / 0xFF runs, with merges, backups and reopens), and `bptree`, a component check of the exported B+ tree with ~110 keys (several levels of splits) against the same KVSpec operators. Half of the transactions go through DB.Update / DB.View. The API-grain design is model-checked exhaustively for a small universe (NutsMC_kv.cfg).",
+   note="Trusts TLC, the Json module, and the recording wrapper (harness/internal/hx). Bounded universe: 13 keys, 3 buckets, printable-ASCII values (long values are recorded as length + digest). Outside the `ttl` family expiry instants are kept away from the wall clock; the regular-expression predicate is computed by Go's regexp in the driver and passed as a match set.",
    technique="TLA+ trace validation with TLC (code -> spec) + bounded model checking of Nuts.tla"),
 }
 
